@@ -254,7 +254,12 @@ def remapLine (pr : Prog) (reraise tree : Bool) (h : Heap) (root : Obj) : String
     else ("-", "-")
   let mpart := match recRoot ⟨hprogVisit pr, reraise⟩ h root (hbound h) with
     | some (st, v) => showH st.out v
-    | none => if hpart.startsWith "!" then hpart else "!no-result"
+    | none =>
+      -- the recursion is specified for container roots; it returns nothing when a visit raises
+      if hpart.startsWith "!" then hpart else
+      match root with
+      | .atom _ => hpart
+      | .ref _ => "!no-result"
   s!"H={hpart} M={mpart} T={tpart} R={rpart}"
 
 def entryS (p : Path) (k : Key) (vw : View) (status : String) : String :=
